@@ -15,13 +15,27 @@
 // Socket: sequences that cause few sends are also run without threads (write, close, read); the others
 // with the writer and the reader running concurrently.
 //
+// Source immutability: every value, string and Array<T> handed to operator<< must still hold its original
+// bit pattern afterwards (compared with memcmp against an independent copy built element by element from the
+// bit patterns): key write.<kind>.<ORDER>.source-modified. Array objects stay alive for the whole sequence and
+// some of them are written again later (items "again#j"), in the same and in the other byte order, so that a
+// source damaged by an earlier write also shows in the bytes produced.
+// Mode socket_frag: the reference bytes are sent through the raw descriptor by a writer thread in small pieces
+// (1..7 bytes, cuts placed inside multi-byte values) with pauses of 100 us..2 ms, so that Socket >> T sees short
+// reads; every value read back must equal the original, the bytes after the object read into must be untouched
+// (key read.<kind>.<ORDER>.wrote-past-object) and the stream must end exactly after the last item.
+//
 // Strata: asl's Array<T> operator<< has a fast path for the not-swapped (host) byte order. Stratum A
 // (modes buffer/file/socket) never sends a non-empty array of multi-byte elements down that path;
 // stratum B (modes *_hostorder_arrays) always does, at least once per sequence.
 #include "common/runner.h"
 #include <thread>
+#include <atomic>
+#include <memory>
 #include <type_traits>
 #include <sys/socket.h>
+#include <sys/ioctl.h>
+#include <time.h>
 #include <asl/StreamBuffer.h>
 #include <asl/File.h>
 #include <asl/Socket.h>
@@ -56,8 +70,9 @@ struct Item
 	std::vector<uint64_t> arr;     // array element bit patterns
 	std::string s;                 // string bytes (no NUL inside)
 	int in_force;                  // order in force when this item is written (model)
+	int src;                       // arrays: -1 = a new Array object; j >= 0 = the Array object made for item j is written again
 	size_t off, len;               // position of its bytes in the reference stream
-	Item() : kind(0), elem(0), ord(0), bits(0), in_force(0), off(0), len(0) {}
+	Item() : kind(0), elem(0), ord(0), bits(0), in_force(0), src(-1), off(0), len(0) {}
 };
 
 struct Seq
@@ -196,10 +211,35 @@ static void gen_seq(vf::Ctx& c, Seq& q, int stratum)
 	q.init = (int)r.below(NORD);
 	q.items.clear();
 	int cur = q.init, triggers = 0;
+	std::vector<int> arrays;       // indices of the array items so far
 	while ((int)q.items.size() < n) {
 		Item it;
 		int w = (int)r.below(100);
-		if (w < 55) { it.kind = (int)r.below(NSCALAR); it.bits = gen_bits(r, it.kind); }
+		if (w < 52) { it.kind = (int)r.below(NSCALAR); it.bits = gen_bits(r, it.kind); }
+		else if (w < 60 && !arrays.empty()) {
+			// the Array object of an earlier item is written again, under the order in force or after a switch
+			int j = arrays[r.below(arrays.size())];
+			int room = n - (int)q.items.size();
+			it = q.items[(size_t)j];
+			it.src = q.items[(size_t)j].src >= 0 ? q.items[(size_t)j].src : j;
+			if (room >= 2 && r.chance(0.5)) {
+				Item e;
+				e.kind = K_END;
+				e.ord = (int)r.below(NORD);
+				q.items.push_back(e);
+				cur = e.ord;
+				room--;
+			}
+			if (stratum == 0 && is_trigger(it, cur)) {
+				// stratum A: keep non-empty multi-byte arrays off the host-order path
+				if (room < 2) continue;
+				Item e;
+				e.kind = K_END;
+				e.ord = host_is_little() ? O_BIG : O_LITTLE;
+				q.items.push_back(e);
+				cur = e.ord;
+			}
+		}
 		else if (w < 75) {
 			it.kind = K_ARR;
 			it.elem = (int)r.below(NSCALAR);
@@ -224,6 +264,7 @@ static void gen_seq(vf::Ctx& c, Seq& q, int stratum)
 		else { it.kind = K_END; it.ord = (int)r.below(NORD); }
 		if (it.kind == K_END) cur = it.ord;
 		if (is_trigger(it, cur)) triggers++;
+		if (it.kind == K_ARR) arrays.push_back((int)q.items.size());
 		q.items.push_back(it);
 	}
 	if (stratum == 1 && !triggers) {
@@ -254,18 +295,21 @@ static std::string describe(const Seq& q)
 		const Item& it = q.items[i];
 		d += "; ";
 		if (it.kind == K_END) d += std::string("setEndian(") + ONAME[it.ord] + ")";
-		else if (it.kind == K_ARR) d += vf::fmt("Array<%s>[%d]", KNAME[it.elem], (int)it.arr.size());
+		else if (it.kind == K_ARR && it.src >= 0) d += vf::fmt("again#%d:Array<%s>[%d]", it.src, KNAME[it.elem], (int)it.arr.size());
+		else if (it.kind == K_ARR) d += vf::fmt("#%d:Array<%s>[%d]", (int)i, KNAME[it.elem], (int)it.arr.size());
 		else if (it.kind >= K_STR) d += vf::fmt("%s[%d]", KNAME[it.kind], (int)it.s.size());
 		else d += vf::fmt("%s=0x%llx", KNAME[it.kind], (unsigned long long)it.bits);
 	}
 	return d;
 }
 
-// counters, non-triviality, distinct hash
-static void account(vf::Ctx& c, const Seq& q)
+// counters, non-triviality, distinct hash (returns true and the hash when the sequence is non-trivial)
+static bool account(vf::Ctx& c, const Seq& q, uint64_t& hash)
 {
 	uint64_t kinds[NKIND] = {0}, arrs[NSCALAR] = {0}, under[NORD] = {0}, init[NORD] = {0};
 	uint64_t eff = 0, len0 = 0, len1 = 0, len100 = 0, hostpath = 0, swappath = 0, specials = 0;
+	uint64_t again = 0, again_same = 0, again_other = 0, again_multibyte_after_swapped = 0;
+	std::vector<int> last_msb(q.items.size(), -1), was_swapped(q.items.size(), 0);   // per Array object (index of its first item)
 	bool multibyte_scalar = false;
 	std::string sig;
 	sig += (char)q.init;
@@ -289,6 +333,15 @@ static void account(vf::Ctx& c, const Seq& q)
 			if (n == 100) len100++;
 			if (swapped(it.in_force)) swappath++; else hostpath++;
 			if (is_trigger(it, it.in_force)) c.count("arrays_multibyte_on_hostorder_path");
+			size_t root = it.src >= 0 ? (size_t)it.src : i;
+			if (it.src >= 0) {
+				sig += 'R';
+				again++;
+				if (last_msb[root] == e) again_same++; else again_other++;
+				if (was_swapped[root] && KSIZE[it.elem] > 1 && n) again_multibyte_after_swapped++;
+			}
+			last_msb[root] = e;
+			if (swapped(it.in_force)) was_swapped[root] = 1;
 		}
 		else if (it.kind < NSCALAR) {
 			if (KSIZE[it.kind] > 1) multibyte_scalar = true;
@@ -311,47 +364,127 @@ static void account(vf::Ctx& c, const Seq& q)
 	if (hostpath) c.count("arrays_on_hostorder_path", hostpath);
 	if (swappath) c.count("arrays_on_swapped_path", swappath);
 	if (specials) c.count("nan_scalars", specials);
+	if (again) c.count("array_objects_written_again", again);
+	if (again_same) c.count("array_written_again_same_effective_order", again_same);
+	if (again_other) c.count("array_written_again_other_effective_order", again_other);
+	if (again_multibyte_after_swapped) c.count("multibyte_array_written_again_after_swapped_write", again_multibyte_after_swapped);
 	c.count("reference_bytes", q.ref.size());
 	if (q.items.size() == 64) c.count("sequences_of_64_items");
-	if (q.items.size() >= 3 && multibyte_scalar) c.distinct(vf::fnv(sig));
-	else c.count("trivial_sequences");
+	hash = vf::fnv(sig);
+	if (q.items.size() >= 3 && multibyte_scalar) return true;
+	c.count("trivial_sequences");
+	return false;
 }
 
 // ---------------------------------------------------------------- writing through asl (same code for the three stream classes)
-template <class W, class T>
-static void put_scalar(W& w, uint64_t bits)
+struct Mismatch
 {
-	T x = make<T>(bits);
+	bool bad;
+	std::string key, detail;
+	Mismatch() : bad(false) {}
+	void set(const std::string& k, const std::string& d) { if (!bad) { bad = true; key = k; detail = d; } }
+};
+
+// what the writer saw of the objects it handed to operator<< (filled in the writing thread, read after it has finished)
+struct SrcLog
+{
+	Mismatch mm;
+	uint64_t scalars, arrays, strings;
+	SrcLog() : scalars(0), arrays(0), strings(0) {}
+};
+
+struct HolderBase { virtual ~HolderBase() {} };
+template <class T>
+struct Holder : HolderBase
+{
+	Array<T> a;                        // the object given to operator<<, alive until the sequence is finished
+	std::vector<unsigned char> orig;   // independent copy of the element bit patterns
+};
+typedef std::vector<std::unique_ptr<HolderBase> > Holders;
+
+template <class W, class T>
+static void put_scalar(W& w, const Item& it, size_t idx, SrcLog& sl)
+{
+	T x = make<T>(it.bits);
+	const T keep = make<T>(it.bits);
 	w << x;
+	sl.scalars++;
+	if (memcmp(&x, &keep, sizeof(T)) != 0)
+		sl.mm.set(vf::fmt("write.%s.%s.source-modified", KNAME[it.kind], ONAME[it.in_force]),
+		          vf::fmt("item %d (%s, order %s): the variable given to operator<< holds %s afterwards, it held %s", (int)idx, KNAME[it.kind], ONAME[it.in_force],
+		                  vf::hex(&x, sizeof(T)).c_str(), vf::hex(&keep, sizeof(T)).c_str()));
 }
 
 template <class W, class T>
-static void put_array(W& w, const std::vector<uint64_t>& v)
+static void put_array(W& w, const Item& it, size_t idx, Holders& hs, SrcLog& sl)
 {
-	Array<T> a((int)v.size());
-	for (size_t i = 0; i < v.size(); i++) {
-		T x = make<T>(v[i]);
-		memcpy(&a[(int)i], &x, sizeof(T));
+	const std::vector<uint64_t>& v = it.arr;
+	Holder<T>* h;
+	if (it.src >= 0) h = static_cast<Holder<T>*>(hs[(size_t)it.src].get());   // same element type and contents by construction
+	else {
+		h = new Holder<T>;
+		hs[idx].reset(h);
+		h->a.resize((int)v.size());
+		h->orig.resize(v.size() * sizeof(T));
+		for (size_t i = 0; i < v.size(); i++) {
+			T x = make<T>(v[i]), y = make<T>(v[i]);
+			memcpy(&h->a[(int)i], &x, sizeof(T));
+			memcpy(&h->orig[i * sizeof(T)], &y, sizeof(T));
+		}
 	}
-	w << a;
+	bool clean_before = h->a.length() == (int)v.size() && (v.empty() || memcmp(h->a.data(), &h->orig[0], h->orig.size()) == 0);
+	w << h->a;
+	sl.arrays++;
+	if (!clean_before) return;   // already reported when it happened; the object is written as it is
+	if (h->a.length() != (int)v.size()) {
+		sl.mm.set(vf::fmt("write.array.%s.source-modified", ONAME[it.in_force]),
+		          vf::fmt("item %d (Array<%s>[%d], order %s): the array given to operator<< has length %d afterwards", (int)idx, KNAME[it.elem], (int)v.size(),
+		                  ONAME[it.in_force], h->a.length()));
+		return;
+	}
+	if (v.empty() || memcmp(h->a.data(), &h->orig[0], h->orig.size()) == 0) return;
+	size_t k = 0;
+	while (memcmp(&h->a[(int)k], &h->orig[k * sizeof(T)], sizeof(T)) == 0) k++;
+	sl.mm.set(vf::fmt("write.array.%s.source-modified", ONAME[it.in_force]),
+	          vf::fmt("item %d (%sArray<%s>[%d], order %s): after operator<< element %d of the caller's array holds %s (object bytes), it held %s", (int)idx,
+	                  it.src >= 0 ? "written again: " : "", KNAME[it.elem], (int)v.size(), ONAME[it.in_force], (int)k, vf::hex(&h->a[(int)k], sizeof(T)).c_str(),
+	                  vf::hex(&h->orig[k * sizeof(T)], sizeof(T)).c_str()));
+}
+
+static void string_unchanged(const String& s, const Item& it, size_t idx, SrcLog& sl)
+{
+	sl.strings++;
+	if (s.length() != (int)it.s.size() || memcmp(*s, it.s.data(), it.s.size()) != 0)
+		sl.mm.set(vf::fmt("write.%s.%s.source-modified", KNAME[it.kind], ONAME[it.in_force]),
+		          vf::fmt("item %d (%s[%d], order %s): the String given to operator<< has length %d and differs from the original afterwards", (int)idx,
+		                  KNAME[it.kind], (int)it.s.size(), ONAME[it.in_force], s.length()));
 }
 
 template <class W>
-static void write_all(W& w, const Seq& q)
+static void write_all(W& w, const Seq& q, SrcLog& sl)
 {
+	Holders hs(q.items.size());
 	for (size_t i = 0; i < q.items.size(); i++) {
 		const Item& it = q.items[i];
 		switch (it.kind) {
-#define X(K, T) case K: put_scalar<W, T>(w, it.bits); break;
+#define X(K, T) case K: put_scalar<W, T>(w, it, i, sl); break;
 			C16_SCALARS(X)
 #undef X
-		case K_STR: { String s(it.s.c_str(), (int)it.s.size()); w << s; break; }
-		case K_CSTR: { const char* p = it.s.c_str(); w << p; break; }
-		case K_LSTR: { String s(it.s.c_str(), (int)it.s.size()); int n = (int)it.s.size(); w << n << s; break; }
+		case K_STR: { String s(it.s.c_str(), (int)it.s.size()); w << s; string_unchanged(s, it, i, sl); break; }
+		case K_CSTR: {
+			std::string copy(it.s);
+			const char* p = copy.c_str();
+			w << p;
+			sl.strings++;
+			if (copy != it.s)
+				sl.mm.set(vf::fmt("write.cstring.%s.source-modified", ONAME[it.in_force]), vf::fmt("item %d (cstring[%d]): the characters given to operator<< changed", (int)i, (int)it.s.size()));
+			break;
+		}
+		case K_LSTR: { String s(it.s.c_str(), (int)it.s.size()); int n = (int)it.s.size(); w << n << s; string_unchanged(s, it, i, sl); break; }
 		case K_END: w.setEndian(asl_endian(it.ord)); break;
 		case K_ARR:
 			switch (it.elem) {
-#define X(K, T) case K: put_array<W, T>(w, it.arr); break;
+#define X(K, T) case K: put_array<W, T>(w, it, i, hs, sl); break;
 				C16_SCALARS(X)
 #undef X
 			}
@@ -361,14 +494,6 @@ static void write_all(W& w, const Seq& q)
 }
 
 // ---------------------------------------------------------------- reading back through asl
-struct Mismatch
-{
-	bool bad;
-	std::string key, detail;
-	Mismatch() : bad(false) {}
-	void set(const std::string& k, const std::string& d) { if (!bad) { bad = true; key = k; detail = d; } }
-};
-
 static std::string raw_read(StreamBufferReader& r, int n)
 {
 	if (n > r.length()) n = r.length();
@@ -400,27 +525,47 @@ static std::string read_lstr(StreamBufferReader& r)   // the reader class has no
 static std::string read_lstr(File& f) { String x; f >> x; return std::string(*x, (size_t)x.length()); }
 static std::string read_lstr(Socket& s) { String x; s >> x; return std::string(*x, (size_t)x.length()); }
 
-template <class R, class T>
-static bool get_scalar(R& r, uint64_t bits, std::string& got)
+// the object read into sits between guard bytes: an extraction that stores more than sizeof(T) bytes is named as such
+// (overruns longer than the guard leave the enclosing object and are ASan's business)
+enum { GUARD = 16 };
+template <class T>
+struct Guarded
 {
-	T x, want = make<T>(bits);
-	memset((void*)&x, 0xA5, sizeof(T));
-	r >> x;
-	if (memcmp(&x, &want, sizeof(T)) == 0) return true;
-	got = vf::hex(&x, sizeof(T)) + " (object bytes), want " + vf::hex(&want, sizeof(T));
-	return false;
+	unsigned char before[GUARD];
+	T x;
+	unsigned char after[GUARD];
+};
+
+template <class R, class T>
+static int get_scalar(R& r, uint64_t bits, std::string& got)   // 0 = right, 1 = wrong value, 2 = bytes outside the object were written
+{
+	Guarded<T> g;
+	T want = make<T>(bits);
+	memset((void*)&g, 0xA5, sizeof g);
+	r >> g.x;
+	int past = 0;
+	for (int i = 0; i < GUARD; i++) if (g.before[i] != 0xA5 || g.after[i] != 0xA5) past++;
+	if (past) {
+		got = vf::fmt("%d guard bytes around the %d-byte object were overwritten; bytes after it: %s; object bytes %s, want %s", past, (int)sizeof(T),
+		              vf::hex(g.after, GUARD).c_str(), vf::hex(&g.x, sizeof(T)).c_str(), vf::hex(&want, sizeof(T)).c_str());
+		return 2;
+	}
+	if (memcmp(&g.x, &want, sizeof(T)) == 0) return 0;
+	got = vf::hex(&g.x, sizeof(T)) + " (object bytes), want " + vf::hex(&want, sizeof(T));
+	return 1;
 }
 
 template <class R>
-static bool get_kind(R& r, int kind, uint64_t bits, std::string& got)
+static int get_kind(R& r, int kind, uint64_t bits, std::string& got)
 {
 	switch (kind) {
 #define X(K, T) case K: return get_scalar<R, T>(r, bits, got);
 		C16_SCALARS(X)
 #undef X
 	}
-	return false;
+	return 1;
 }
+static const char* READ_SHAPE[3] = {"", "value", "wrote-past-object"};
 
 template <class R>
 static void read_all(R& r, const Seq& q, Mismatch& mm)
@@ -431,16 +576,19 @@ static void read_all(R& r, const Seq& q, Mismatch& mm)
 		const char* on = ONAME[it.in_force];
 		if (it.kind == K_END) r.setEndian(asl_endian(it.ord));
 		else if (it.kind < NSCALAR) {
-			if (!get_kind(r, it.kind, it.bits, got))
-				mm.set(vf::fmt("read.%s.%s.value", KNAME[it.kind], on), vf::fmt("item %d (%s, order %s): read back %s", (int)i, KNAME[it.kind], on, got.c_str()));
+			int bad = get_kind(r, it.kind, it.bits, got);
+			if (bad)
+				mm.set(vf::fmt("read.%s.%s.%s", KNAME[it.kind], on, READ_SHAPE[bad]), vf::fmt("item %d (%s, order %s): read back %s", (int)i, KNAME[it.kind], on, got.c_str()));
 		}
 		else if (it.kind == K_ARR) {
-			for (size_t k = 0; k < it.arr.size(); k++)
-				if (!get_kind(r, it.elem, it.arr[k], got)) {
-					mm.set(vf::fmt("read.array.%s.value", on), vf::fmt("item %d (Array<%s>[%d], order %s): element %d read back %s", (int)i, KNAME[it.elem],
+			for (size_t k = 0; k < it.arr.size(); k++) {
+				int bad = get_kind(r, it.elem, it.arr[k], got);
+				if (bad) {
+					mm.set(vf::fmt("read.array.%s.%s", on, READ_SHAPE[bad]), vf::fmt("item %d (Array<%s>[%d], order %s): element %d read back %s", (int)i, KNAME[it.elem],
 					                                                  (int)it.arr.size(), on, (int)k, got.c_str()));
 					break;
 				}
+			}
 		}
 		else {
 			got = it.kind == K_LSTR ? read_lstr(r) : raw_read(r, (int)it.s.size());
@@ -452,11 +600,14 @@ static void read_all(R& r, const Seq& q, Mismatch& mm)
 }
 
 // ---------------------------------------------------------------- producing bytes through each stream class
-static void produce_buffer(const Seq& q, bool by_ctor, std::string& got, ByteArray* keep)
+enum Backend { B_BUFFER, B_FILE, B_SOCKET };
+static const char* BNAME[3] = {"StreamBuffer", "File", "Socket"};
+
+static void produce_buffer(const Seq& q, bool by_ctor, std::string& got, ByteArray* keep, SrcLog& sl)
 {
 	StreamBuffer b(by_ctor ? asl_endian(q.init) : ENDIAN_LITTLE);
 	if (!by_ctor) b.setEndian(asl_endian(q.init));
-	write_all(b, q);
+	write_all(b, q, sl);
 	got.assign((const char*)b.data(), (size_t)b.length());
 	if (keep) *keep = *b;   // shares the buffer's block
 }
@@ -477,21 +628,21 @@ static bool slurp_posix(const std::string& path, std::string& out)
 	return true;
 }
 
-static const char* produce_file(const std::string& spath, const Seq& q, bool open_in_ctor, std::string& got)   // returns 0 or why it could not run
+static const char* produce_file(const std::string& spath, const Seq& q, bool open_in_ctor, std::string& got, SrcLog& sl)   // returns 0 or why it could not run
 {
 	String path(spath.c_str());
 	if (open_in_ctor) {
 		File f(path, File::WRITE);
 		if (!f) return "file-open-write";
 		f.setEndian(asl_endian(q.init));
-		write_all(f, q);
+		write_all(f, q, sl);
 		f.close();
 	}
 	else {
 		File f(path);
 		f.setEndian(asl_endian(q.init));   // the order is a property of the object, set before opening
 		if (!f.open(File::WRITE)) return "file-open-write";
-		write_all(f, q);
+		write_all(f, q, sl);
 		// closed by the destructor
 	}
 	return slurp_posix(spath, got) ? 0 : "posix-open";
@@ -522,15 +673,15 @@ static void drain_fd(int rfd, std::string* gp)
 	}
 }
 
-static void socket_writer(int wfd, const Seq* qp)
+static void socket_writer(int wfd, const Seq* qp, SrcLog* sl)
 {
 	Socket w(wfd);
 	w.setEndian(asl_endian(qp->init));
-	write_all(w, *qp);
+	write_all(w, *qp, *sl);
 	w.close();
 }
 
-static const char* produce_socket(const Seq& q, bool threaded, std::string& got)
+static const char* produce_socket(const Seq& q, bool threaded, std::string& got, SrcLog& sl)
 {
 	int fd[2];
 	if (socketpair(AF_UNIX, SOCK_STREAM, 0, fd) != 0) return "socketpair";
@@ -539,27 +690,32 @@ static const char* produce_socket(const Seq& q, bool threaded, std::string& got)
 	std::string* gp = &got;
 	if (threaded || !fits_in_socket_buffer(q)) {
 		std::thread cap([rfd, gp]() { drain_fd(rfd, gp); });
-		socket_writer(fd[0], &q);
+		socket_writer(fd[0], &q, &sl);
 		cap.join();
 	}
 	else {
-		socket_writer(fd[0], &q);
+		socket_writer(fd[0], &q, &sl);
 		drain_fd(rfd, gp);
 	}
 	::close(rfd);
 	return 0;
 }
 
-enum Backend { B_BUFFER, B_FILE, B_SOCKET };
-static const char* BNAME[3] = {"StreamBuffer", "File", "Socket"};
-
-static const char* produce(int backend, vf::Ctx& c, const Seq& q, bool variant, std::string& got, ByteArray* keep = 0)
+static const char* produce(int backend, vf::Ctx& c, const Seq& q, bool variant, std::string& got, SrcLog& sl, ByteArray* keep = 0)
 {
 	switch (backend) {
-	case B_BUFFER: produce_buffer(q, variant, got, keep); return 0;
-	case B_FILE: return produce_file(c.opt->out + "/c16_stream.bin", q, variant, got);
-	default: return produce_socket(q, variant, got);
+	case B_BUFFER: produce_buffer(q, variant, got, keep, sl); return 0;
+	case B_FILE: return produce_file(c.opt->out + "/c16_stream.bin", q, variant, got, sl);
+	default: return produce_socket(q, variant, got, sl);
 	}
+}
+
+// the objects given to operator<< must be unchanged; reported while the case goes on, so that the produced bytes are judged as well
+static void check_sources(vf::Ctx& c, int backend, const SrcLog& sl)
+{
+	c.count("source_objects_compared_after_write", sl.scalars + sl.arrays + sl.strings);
+	c.count("source_arrays_compared_after_write", sl.arrays);
+	if (sl.mm.bad) c.report(sl.mm.key, std::string(BNAME[backend]) + ": " + sl.mm.detail);
 }
 
 // ---------------------------------------------------------------- byte comparison against the reference
@@ -583,9 +739,11 @@ static void check_bytes(vf::Ctx& c, int backend, const Seq& q, const std::string
 		Seq one;
 		one.init = it.in_force;
 		one.items.push_back(it);
+		one.items[0].src = -1;
 		build_reference(one);
 		std::string g;
-		if (produce(backend, c, one, true, g)) continue;
+		SrcLog alone;
+		if (produce(backend, c, one, true, g, alone)) continue;
 		if (g == one.ref) continue;
 		c.fail(vf::fmt("write.%s.%s.%s", KNAME[it.kind], ONAME[it.in_force], shape_of(g.size(), one.ref.size())),
 		       vf::fmt("%s: the sequence produced %d bytes, the reference has %d. Item %d = %s in order %s, written alone, produces %d bytes %s; reference: %d bytes %s",
@@ -610,8 +768,11 @@ static void run_buffer(vf::Ctx& c, const Seq& q)
 	bool by_ctor = c.rng.chance(0.5), reader_by_ctor = c.rng.chance(0.5), reader_raw = c.rng.chance(0.5);
 	c.op(vf::fmt("StreamBuffer(%s) <<", by_ctor ? "order in constructor" : "setEndian"));
 	ByteArray content;
-	produce(B_BUFFER, c, q, by_ctor, got, &content);
+	SrcLog sl;
+	produce(B_BUFFER, c, q, by_ctor, got, sl, &content);
+	check_sources(c, B_BUFFER, sl);
 	check_bytes(c, B_BUFFER, q, got);
+	if (sl.mm.bad) return;
 
 	Mismatch mm;
 	c.op(vf::fmt("StreamBufferReader(%s, %s) >>", reader_raw ? "exact malloc copy" : "ByteArray", reader_by_ctor ? "order in constructor" : "setEndian"));
@@ -651,9 +812,12 @@ static void run_file(vf::Ctx& c, const Seq& q)
 	bool open_in_ctor = c.rng.chance(0.5);
 	c.op("File(WRITE) << ; POSIX read");
 	std::string got;
-	const char* why = produce(B_FILE, c, q, open_in_ctor, got);
+	SrcLog sl;
+	const char* why = produce(B_FILE, c, q, open_in_ctor, got, sl);
 	if (why) { c.inconclusive(why); return; }
+	check_sources(c, B_FILE, sl);
 	check_bytes(c, B_FILE, q, got);
+	if (sl.mm.bad) return;
 
 	c.op("File(READ) >>");
 	Mismatch mm;
@@ -676,21 +840,25 @@ static void run_socket(vf::Ctx& c, const Seq& q)
 	c.count(threaded ? "socket_cases_writer_and_reader_concurrent" : "socket_cases_write_close_then_read");
 	c.op(threaded ? "Socket(fd) << ; raw read on the peer in a thread" : "Socket(fd) << ; close ; raw read on the peer");
 	std::string got;
-	const char* why = produce(B_SOCKET, c, q, threaded, got);
+	SrcLog sl;
+	const char* why = produce(B_SOCKET, c, q, threaded, got, sl);
 	if (why) { c.inconclusive(why); return; }
+	check_sources(c, B_SOCKET, sl);
 	check_bytes(c, B_SOCKET, q, got);
+	if (sl.mm.bad) return;
 
 	// pass 2: asl writes (in a thread unless the payload fits in the socket buffer), asl reads on the peer
 	int fd[2];
 	if (socketpair(AF_UNIX, SOCK_STREAM, 0, fd) != 0) { c.inconclusive("socketpair"); return; }
 	c.op(threaded ? "Socket(fd) << in a thread ; Socket(fd) >> on the peer" : "Socket(fd) << ; close ; Socket(fd) >> on the peer");
 	Mismatch mm;
+	SrcLog sl2, *slp = &sl2;
 	{
 		int wfd = fd[0];
 		const Seq* qp = &q;
 		std::thread wr;
-		if (threaded) wr = std::thread([wfd, qp]() { socket_writer(wfd, qp); });
-		else socket_writer(wfd, qp);
+		if (threaded) wr = std::thread([wfd, qp, slp]() { socket_writer(wfd, qp, slp); });
+		else socket_writer(wfd, qp, slp);
 		{
 			Socket r(fd[1]);
 			r.setEndian(asl_endian(q.init));
@@ -704,18 +872,195 @@ static void run_socket(vf::Ctx& c, const Seq& q)
 			}
 		}
 	}
+	check_sources(c, B_SOCKET, sl2);
 	if (mm.bad) c.fail(mm.key, "Socket: " + mm.detail);
+}
+
+// ---------------------------------------------------------------- Socket read-back with fragmented delivery
+// The reference bytes go through the raw descriptor in pieces; after some pieces the writer waits until the reader has
+// taken every byte sent so far (FIONREAD on the reader's descriptor is 0) and then pauses. When such a cut lies inside a
+// multi-byte value the reader's ::read() for that value has returned fewer bytes than asked for: a forced short read.
+struct Piece
+{
+	size_t off, len;
+	unsigned pause_us;     // 0 = send the next piece at once
+	int vsize, k;          // the cut after this piece lies k bytes into a value of vsize bytes (k = 0: on a value boundary)
+	Piece() : off(0), len(0), pause_us(0), vsize(1), k(0) {}
+};
+
+struct FragStats
+{
+	uint64_t pieces, pauses, forced, forced_size[9], forced_after_1, forced_before_last, not_drained, send_failed;
+	FragStats() { memset(this, 0, sizeof *this); }
+};
+
+static const char* FRAG_TAG[4] = {"pieces_1_to_7", "pieces_1_to_7_some_8_to_64", "cuts_inside_values_only", "pieces_1_to_3"};
+static const char* FRAG_STYLE[4] = {"pieces of 1..7 bytes", "pieces of 1..7 bytes, some of 8..64", "cuts inside values only, the tail arrives with what follows", "pieces of 1..3 bytes"};
+
+static void frag_plan(vf::Rng& r, const Seq& q, int style, std::vector<Piece>& plan)
+{
+	const size_t N = q.ref.size();
+	std::vector<uint32_t> vstart(N + 1, 0);
+	std::vector<unsigned char> vsize(N + 1, 1), forced(N + 1, 0);
+	std::vector<std::pair<size_t, int> > values;   // multi-byte values: offset, size
+	for (size_t i = 0; i < q.items.size(); i++) {
+		const Item& it = q.items[i];
+		int sz = 1;
+		size_t from = it.off, to = it.off;
+		if (it.kind < NSCALAR) { sz = KSIZE[it.kind]; to = it.off + it.len; }
+		else if (it.kind == K_ARR) { sz = KSIZE[it.elem]; to = it.off + it.len; }
+		else if (it.kind == K_LSTR) { sz = 4; to = it.off + 4; }
+		if (sz > 1)
+			for (size_t p = from; p < to; p += (size_t)sz) {
+				values.push_back(std::make_pair(p, sz));
+				for (int b = 0; b < sz; b++) { vstart[p + (size_t)b] = (uint32_t)p; vsize[p + (size_t)b] = (unsigned char)sz; }
+			}
+	}
+	// cuts placed inside multi-byte values: after the first byte, before the last one, or anywhere inside
+	double pin = style == 2 ? 0.6 : 0.35;
+	for (size_t v = 0; v < values.size(); v++) {
+		if (!r.chance(pin)) continue;
+		int sz = values[v].second, how = (int)r.below(5);
+		int k = how < 2 ? 1 : how == 2 ? sz - 1 : r.range(1, sz - 1);
+		forced[values[v].first + (size_t)k] = 1;
+		if (sz == 8 && r.chance(0.3)) forced[values[v].first + (size_t)r.range(1, 7)] = 1;
+	}
+	plan.clear();
+	size_t pos = 0;
+	while (pos < N) {
+		size_t len;
+		switch (style) {
+		case 0: len = (size_t)r.range(1, 7); break;
+		case 1: len = r.chance(0.8) ? (size_t)r.range(1, 7) : (size_t)r.range(8, 64); break;
+		case 2: len = N; break;
+		default: len = (size_t)r.range(1, 3); break;
+		}
+		size_t end = pos + len < N ? pos + len : N;
+		for (size_t p = pos + 1; p < end; p++) if (forced[p]) { end = p; break; }
+		Piece pc;
+		pc.off = pos;
+		pc.len = end - pos;
+		if (end < N && vsize[end] > 1 && vstart[end] < end) { pc.vsize = vsize[end]; pc.k = (int)(end - vstart[end]); }
+		plan.push_back(pc);
+		pos = end;
+	}
+	// pauses: at most 24 after cuts inside values, at most 8 elsewhere
+	std::vector<size_t> in, out;
+	for (size_t i = 0; i + 1 < plan.size(); i++) (plan[i].k ? in : out).push_back(i);
+	for (int pass = 0; pass < 2; pass++) {
+		std::vector<size_t>& v = pass ? out : in;
+		size_t want = pass ? 8 : 24;
+		for (size_t i = 0; i < want && i < v.size(); i++) {
+			size_t j = i + (size_t)r.below(v.size() - i);
+			std::swap(v[i], v[j]);
+			int sel = (int)r.below(10);
+			plan[v[i]].pause_us = (unsigned)(sel < 6 ? r.range(100, 300) : sel < 9 ? r.range(300, 1000) : r.range(1000, 2000));
+		}
+	}
+}
+
+static double now_s()
+{
+	struct timespec ts;
+	clock_gettime(CLOCK_MONOTONIC, &ts);
+	return (double)ts.tv_sec + 1e-9 * (double)ts.tv_nsec;
+}
+
+static void frag_writer(int wfd, int rfd, const std::string* ref, const std::vector<Piece>* plan, FragStats* st, std::atomic<bool>* stop)
+{
+	for (size_t i = 0; i < plan->size() && !stop->load(); i++) {
+		const Piece& pc = (*plan)[i];
+		size_t sent = 0;
+		while (sent < pc.len) {
+			ssize_t k = ::send(wfd, ref->data() + pc.off + sent, pc.len - sent, MSG_NOSIGNAL);
+			if (k > 0) sent += (size_t)k;
+			else if (k < 0 && errno == EINTR) continue;
+			else break;
+		}
+		if (sent < pc.len) { st->send_failed++; break; }
+		st->pieces++;
+		if (!pc.pause_us) continue;
+		bool drained = false;
+		double deadline = now_s() + 0.25;
+		while (!stop->load()) {
+			int n = -1;
+			if (ioctl(rfd, FIONREAD, &n) != 0) break;
+			if (n == 0) { drained = true; break; }
+			if (now_s() > deadline) break;
+			usleep(20);
+		}
+		usleep(pc.pause_us);
+		st->pauses++;
+		if (!drained) { st->not_drained++; continue; }
+		if (pc.k) {
+			st->forced++;
+			st->forced_size[pc.vsize]++;
+			if (pc.k == 1) st->forced_after_1++;
+			if (pc.k == pc.vsize - 1) st->forced_before_last++;
+		}
+	}
+	::close(wfd);
+}
+
+static void run_socket_frag(vf::Ctx& c, const Seq& q, bool nontrivial, uint64_t hash)
+{
+	int style = (int)c.rng.below(4);
+	std::vector<Piece> plan;
+	frag_plan(c.rng, q, style, plan);
+	c.count((std::string("frag.style.") + FRAG_TAG[style]).c_str());
+	int fd[2];
+	if (socketpair(AF_UNIX, SOCK_STREAM, 0, fd) != 0) { c.inconclusive("socketpair"); return; }
+	c.op(vf::fmt("reference bytes (%d) sent through the raw descriptor by a thread in %d pieces (%s) with pauses; Socket(fd) >> on the peer", (int)q.ref.size(),
+	             (int)plan.size(), FRAG_STYLE[style]));
+	Mismatch mm;
+	FragStats st;
+	std::atomic<bool> stop(false);
+	{
+		Socket r(fd[1]);
+		r.setEndian(asl_endian(q.init));
+		int wfd = fd[0], rfd = fd[1];
+		const std::string* ref = &q.ref;
+		const std::vector<Piece>* pp = &plan;
+		FragStats* sp = &st;
+		std::atomic<bool>* stopp = &stop;
+		std::thread wr([wfd, rfd, ref, pp, sp, stopp]() { frag_writer(wfd, rfd, ref, pp, sp, stopp); });
+		read_all(r, q, mm);
+		if (mm.bad) {
+			stop.store(true);
+			::shutdown(rfd, SHUT_RDWR);   // a writer blocked in send() returns; the descriptor stays valid until the thread is gone
+		}
+		wr.join();
+		if (!mm.bad) {
+			char ch;
+			ssize_t k = ::recv(r.handle(), &ch, 1, MSG_DONTWAIT);
+			if (k != 0) mm.set("read.consumed", k > 0 ? "bytes left on the socket after reading every item back" : vf::fmt("recv after the writer closed: errno %d", errno));
+		}
+	}
+	c.count("frag.pieces_sent", st.pieces);
+	c.count("frag.pauses", st.pauses);
+	if (st.not_drained) c.count("frag.pauses_reader_had_not_caught_up", st.not_drained);
+	if (st.forced) c.count("frag.short_reads_forced", st.forced);
+	for (int z = 2; z <= 8; z *= 2) if (st.forced_size[z]) c.count(vf::fmt("frag.short_reads_forced.%d_byte_value", z).c_str(), st.forced_size[z]);
+	if (st.forced_after_1) c.count("frag.short_reads_forced.after_first_byte", st.forced_after_1);
+	if (st.forced_before_last) c.count("frag.short_reads_forced.before_last_byte", st.forced_before_last);
+	if (mm.bad) c.fail(mm.key, vf::fmt("Socket, fragmented delivery (%s; %d short reads forced before the end of the case): ", FRAG_STYLE[style], (int)st.forced) + mm.detail);
+	if (st.send_failed) { c.inconclusive("frag-send-failed"); return; }
+	if (!st.forced) c.count("frag.cases_without_forced_short_read");
+	else if (nontrivial) c.distinct(vf::mix(hash, (uint64_t)style));
 }
 
 // ---------------------------------------------------------------- modes
 
-static void run_case(vf::Ctx& c, int backend, int stratum)
+static void run_case(vf::Ctx& c, int backend, int stratum, bool frag = false)
 {
 	Seq q;
 	gen_seq(c, q, stratum);
 	c.desc(describe(q));
-	account(c, q);
+	uint64_t hash = 0;
+	bool nontrivial = account(c, q, hash);
 	if (c.want_sample()) c.sample(c.curdesc().substr(0, 700));
+	if (frag) { run_socket_frag(c, q, nontrivial, hash); return; }
+	if (nontrivial) c.distinct(hash);
 	switch (backend) {
 	case B_BUFFER: run_buffer(c, q); break;
 	case B_FILE: run_file(c, q); break;
@@ -729,6 +1074,7 @@ static void mode_socket(vf::Ctx& c) { run_case(c, B_SOCKET, 0); }
 static void mode_buffer_b(vf::Ctx& c) { run_case(c, B_BUFFER, 1); }
 static void mode_file_b(vf::Ctx& c) { run_case(c, B_FILE, 1); }
 static void mode_socket_b(vf::Ctx& c) { run_case(c, B_SOCKET, 1); }
+static void mode_socket_frag(vf::Ctx& c) { run_case(c, B_SOCKET, 1, true); }
 
 int main(int argc, char** argv)
 {
@@ -739,5 +1085,6 @@ int main(int argc, char** argv)
 	R.add("buffer_hostorder_arrays", mode_buffer_b, "as buffer, every sequence has a non-empty multi-byte array written in host order");
 	R.add("file_hostorder_arrays", mode_file_b, "as file, every sequence has a non-empty multi-byte array written in host order");
 	R.add("socket_hostorder_arrays", mode_socket_b, "as socket, every sequence has a non-empty multi-byte array written in host order");
+	R.add("socket_frag", mode_socket_frag, "reference bytes sent through the raw fd in small pieces with pauses (short reads) ; Socket >>");
 	return R.main(argc, argv);
 }
